@@ -21,10 +21,10 @@ if os.path.exists(f'{V}/.work/seed_extra.txt'):
 rows = []
 for (cid, x), c in sorted(conf.items()):
     src = f'/tmp/mut/out/{cid}'
-    if 'DOES-NOT-APPLY' in c and not (cid, x) == ('C01', 'B'):
+    if 'DOES-NOT-APPLY' in c:
         rows.append((cid, x, 'dropped', 'patch conflicts with a fix: commit (the fix removed the code the change relied on)', ''))
         continue
-    if (cid, x) != ('C01', 'B') and 'with=[FAIL]' not in c:
+    if 'with=[FAIL]' not in c:
         rows.append((cid, x, 'dropped', 'demo no longer fails on the repaired tree: ' + c, ''))
         continue
     d = f'{V}/seeded/{cid}-{x}'
@@ -37,13 +37,16 @@ for (cid, x), c in sorted(conf.items()):
     except Exception:
         pass
     r = res.get((cid, x), 'not run')
+    for e in extra.get((cid, x), []):   # later runs of the property's own (strengthened) check
+        if e.startswith(f'by {cid} ') and 'rc=1' in e:
+            r = e[len(f'by {cid} '):]
     caught = 'rc=1' in r and 'violations=0' not in r
     vcs = r.split(' ', 3)[3] if caught and len(r.split(' ', 3)) > 3 else ''
     meta = {
         'property': cid, 'change': x, 'files_changed': am.get('files_changed'), 'what': am.get('what'), 'needs': am.get('needs'),
         'confirmed_by_me': {
             'scratch_worktree_of_repaired_HEAD': 'patch applied with git apply; go build ./... (cgo emulator link errors as on the clean tree); demo test ' +
-            ('FAILS with the change and PASSES without it' if 'with=[FAIL]' in c or (cid, x) == ('C01', 'B') else c),
+            ('FAILS with the change and PASSES without it' if 'with=[FAIL]' in c else c),
             'baseline': 'existing tests of the touched packages unchanged (agent run against the original tree; re-run of the package tests in the scratch worktree showed only the pre-existing network/fixture failures)',
             'raw': c,
         },
